@@ -54,6 +54,12 @@ def cases(tier, seed):
                 for rep in ("sympy", "dense") if sizes == (1, 3) else ("dense",):
                     out.append(dict(sizes=list(sizes), E=E, k=1, support=[[1]], pattern="dense", fd=None, mask={"1": m},
                                     hermitian=True, repr=rep, vset=0, total=3))
+    # three blocks with a mask on the interior block only
+    for E in lattice.level_patterns((1, 3, 1)):
+        Eb = [tuple(e) for e in E[1:4]]
+        for m in lattice.sym_masks(3, Eb, True):
+            out.append(dict(sizes=[1, 3, 1], E=E, k=1, support=[[1]], pattern="dense", fd=None, mask={"1": m},
+                            hermitian=True, repr="dense", vset=0, total=3))
     # degeneracy-threshold families (float representations only):
     #  (a) a fully diagonalised block sitting at a large common offset (gaps >= 1, |E| = 2e5: distinct levels)
     #  (b) degenerate levels given with rounding noise (equal within atol but not bit-identical)
